@@ -823,8 +823,8 @@ var _ uuid.UUID
 // ---------------------------------------------------------------------------------------------
 // C12: dataset-level batch writes. Items come straight from a decoded request: the only thing assumed about them is that a
 // repeated message field has no nil element (protobuf decoding never produces one); ids, vectors, metadata are arbitrary.
-//@ spec dimItemOK(d *Dataset, it *pb.BatchItem) bool = len(it.Value) % 4294967296 == d.meta.Dimension && allFinite(it.Value)
-//@ spec checkErr(e error) bool = e == DimensionMissmatchErr || e == NonFiniteValueErr
+//@ spec dimItemOK(d *Dataset, it *pb.BatchItem) bool = len(it.Value) % 4294967296 == d.meta.Dimension && allFinite(it.Value) && metaFits(it.Metadata)
+//@ spec checkErr(e error) bool = e == DimensionMissmatchErr || e == NonFiniteValueErr || e == index.MetadataTooLargeErr
 //@ spec noNilItems(items []*pb.BatchItem) bool = forall i int :: 0 <= i && i < len(items) ==> items[i] != nil
 //@ spec wfGroups(d *Dataset, m map[*partition][]*pb.BatchItem) bool = !has(m, nil) && (forall p *partition :: has(m, p) ==> wfPartition(d, p)) && (forall p *partition, i int :: has(m, p) && 0 <= i && i < len(m[p]) ==> m[p][i] != nil)
 
@@ -1246,9 +1246,11 @@ var _ uuid.UUID
 //@ props C12
 //@ requires [wf] this.dataset != nil && this.dataset.meta != nil
 //@ ensures [C12 validated] isnil(ret) ==> forall i int :: 0 <= i && i < len(items) ==> len(items[i].Id) == 16 && (withValue ==> dimOK(this, len(items[i].Value)))
+//@ ensures [C12 oversize-metadata-refused] isnil(ret) && withValue ==> forall i int :: 0 <= i && i < len(items) ==> metaFits(items[i].Metadata)
 //@ modifies nothing
 //@ loop 1
 //@ invariant [prefix] forall i int :: 0 <= i && i <= rangeindex ==> len(items[i].Id) == 16 && (withValue ==> dimOK(this, len(items[i].Value)))
+//@ invariant [metadata-prefix] withValue ==> forall i int :: 0 <= i && i <= rangeindex ==> metaFits(items[i].Metadata)
 
 //@ func (*storage.partition).batchInsert
 //@ props C12 C11
@@ -1344,6 +1346,7 @@ var _ uuid.UUID
 //@ requires [wf] wfDatasetFull(this) && !isnil(ctx)
 //@ ensures [dimension-first] len(value) % 4294967296 != old(this.meta.Dimension) ==> ret == DimensionMissmatchErr && proposals == 0 && rpcs == 0
 //@ ensures [C12 non-finite-vector-refused] !old(allFinite(value)) ==> !isnil(ret) && proposals == 0 && rpcs == 0
+//@ ensures [C12 oversize-metadata-refused] !old(metaFits(metadata)) ==> !isnil(ret) && proposals == 0 && rpcs == 0
 //@ ensures [unreachable-owner] dialFailed == 1 ==> !isnil(ret)
 //@ ensures [rpc-error] rpcFailed == 1 ==> !isnil(ret)
 //@ ensures [exactly-one-route] isnil(ret) ==> proposals + rpcs == 1
@@ -1369,6 +1372,7 @@ var _ uuid.UUID
 //@ requires [wf] wfDatasetFull(this) && !isnil(ctx)
 //@ ensures [dimension-first] len(value) % 4294967296 != old(this.meta.Dimension) ==> ret == DimensionMissmatchErr && proposals == 0 && rpcs == 0
 //@ ensures [C12 non-finite-vector-refused] !old(allFinite(value)) ==> !isnil(ret) && proposals == 0 && rpcs == 0
+//@ ensures [C12 oversize-metadata-refused] !old(metaFits(metadata)) ==> !isnil(ret) && proposals == 0 && rpcs == 0
 //@ ensures [unreachable-owner] dialFailed == 1 ==> !isnil(ret)
 //@ ensures [rpc-error] rpcFailed == 1 ==> !isnil(ret)
 //@ ensures [exactly-one-route] isnil(ret) ==> proposals + rpcs == 1
